@@ -44,7 +44,13 @@ def unit(u) -> Stats:
         chk = Sound(v, tol)
         lr = LatticeRun(n, v, comp, chk, st, tag)
         if "fresh" in modes:
-            lr.fresh(Ks=(list(A.layered_knowledge(n, 2)) if n >= 5 else None))
+            if n <= 4:
+                Ks = None
+            elif n == 5:
+                Ks = list(A.layered_knowledge(n, 2))
+            else:
+                Ks = list(A.layered_knowledge(n, 1)) + (list(A.distance2_knowledge(n)) if "pairs" in modes else [])
+            lr.fresh(Ks=Ks)
         if "euler" in modes:
             lr.euler()
         if "dirty2" in modes:
@@ -100,6 +106,13 @@ def units(run: Run):
             continue
         gv = A.shifted(g, (1, -1, 2, 0, 3)) if i % 4 < 2 else tuple(a + b for a, b in zip(g, convex5))
         us.append((5, f"pairgraph#{i}", gv, ("fresh",), 0.0))
+    # larger player counts (thresholds at 6, 8): structurally different exact games, knowledge within distance 1 of minimal / full,
+    # size layers, and (n = 6) EVERY pair of revealed coalitions
+    for n in ((6,) if quick else (6, 7, 8)):
+        for tag, gv in A.larger_n_samples(n):
+            if quick and not tag.startswith(("matching", "path-shift", "two-cliques")):
+                continue
+            us.append((n, f"n{n}:{tag}", gv, ("fresh", "pairs") if n == 6 else ("fresh",), 0.0))
     # float-valued generator families (tolerance G2)
     width = 2 if quick else 8
     for name in gens.SA_FAMILIES:
@@ -127,10 +140,11 @@ def run(run: Run) -> None:
     us = units(run)
     run.rule = ("hidden games enumerated completely: A3-SA x {plain, additive shift, dyadic}; A4-SA closure-rule games "
                 "(quick: one representative per relabelling class, thorough: all 2048 x 3 variants + 1/8 of pairs in {0,1,2}); "
-                "n=5 layered K on two exact games; float generator families in a seed window. Per game and computer: "
+                "n=5 layered K on two exact games and 34 pair-graph games; n=6 (thorough 7, 8) structurally different exact games with every K within distance 1 of "
+                "minimal/full, size layers and (n=6) every pair of revealed coalitions; float generator families in a seed window. Per game and computer: "
                 "fresh object at EVERY knowledge set, Euler walk over every lattice edge on one long-lived object, "
                 "BFS over dirty runs <= 2 (n=3). non-trivial = distinct (game, computer, K) with at least one non-degenerate interval")
-    run.bounds = {"n": [3, 4, 5], "dirty_run": 2, "computers": list(COMPUTERS), "units": len(us),
+    run.bounds = {"n": [3, 4, 5, 6] if run.quick else [3, 4, 5, 6, 7, 8], "dirty_run": 2, "computers": list(COMPUTERS), "units": len(us),
                   "seed_window_width": 2 if run.quick else 8}
     run.assumptions = ["float generator games are compared with tolerance 64*n*2^-53*scale (G2); exact alphabets with ==",
                        "n>=5 is covered on layered knowledge sets only (Hamming distance <= 2 of minimal/full plus size layers)"]
